@@ -73,11 +73,22 @@ def in_domain(argv):
     if not argv or argv[0] in TDDA_LONG + WRITE or not argv[0] or argv[0].startswith('-'):
         return False
     rest = argv[1:]
-    if any(a in WRITE for a in rest) or any(a == '' for a in rest):
+    if any(a == '' for a in rest):
         return False
-    if sum(1 for a in rest if a in ('--W', '--write-all')) > 1:
+    # the guards are about the arguments as they look after the single-dash scan
+    # (e.g. -0w becomes -w, -1-tagged becomes --tagged), as in RefTest/ArgvProofs.v:in_domain
+    sc = []
+    for a in rest:
+        if a.startswith('-') and not a.startswith('--'):
+            a = ''.join(ch for ch in a if ch not in 'W10')
+            if a in ('-', ''):
+                continue
+        sc.append(a)
+    if any(a in WRITE for a in sc):
         return False
-    return all(rest.count(f) <= 1 for f in TDDA_LONG)
+    if sum(1 for a in sc if a in ('--W', '--write-all')) > 1:
+        return False
+    return all(sc.count(f) <= 1 for f in TDDA_LONG)
 
 
 def single_dash(a):
@@ -88,20 +99,18 @@ def oracle_strip(argv):
     """What the property requires of the scanner on an in-domain argv."""
     rest = argv[1:]
     out = [argv[0]]
+    sc = []
     for a in rest:
-        if a in TDDA_LONG:
-            continue
         if single_dash(a):
-            s = ''.join(ch for ch in a if ch not in 'W10')
-            if s in ('-', ''):
+            a = ''.join(ch for ch in a if ch not in 'W10')
+            if a in ('-', ''):
                 continue
-            out.append(s)
-        else:
-            out.append(a)
-    tagged = any(single_dash(a) and '1' in a for a in rest) or '--tagged' in rest
-    check = any(single_dash(a) and '0' in a for a in rest) or '--istagged' in rest
-    regen = any(single_dash(a) and 'W' in a for a in rest) or '--W' in rest or '--write-all' in rest
-    quiet = '-wquiet' in rest or '--wquiet' in rest
+        sc.append(a)
+    out += [a for a in sc if a not in TDDA_LONG]
+    tagged = any(single_dash(a) and '1' in a for a in rest) or '--tagged' in sc
+    check = any(single_dash(a) and '0' in a for a in rest) or '--istagged' in sc
+    regen = any(single_dash(a) and 'W' in a for a in rest) or '--W' in sc or '--write-all' in sc
+    quiet = '-wquiet' in sc or '--wquiet' in sc
     return (out, tagged, check, ({None: True} if regen else {}), quiet)
 
 
